@@ -64,8 +64,11 @@ def run(tier):
     # one network, two encodings in the PSS/E format: the k-th transformer entered on its winding base instead of the system base
     for c in (["kundur/kundur.raw", "ieee14/ieee14.raw"] if quick else ["kundur/kundur.raw", "ieee14/ieee14.raw", "wscc9/wscc9.raw", "ieee39/ieee39.raw", "npcc/npcc.raw"]):
         if os.path.exists(os.path.join("/repo/andes/cases", c)):
-            tasks.append(dict(kind="raw", sid="raw[%s|transformer on winding base]" % c, case=c,
+            tasks.append(dict(kind="raw", sid="raw[%s|transformer on winding base, loads as ZIP mixes]" % c, case=c, zip_variants=3 if quick else 8,
                               variants=[(0, 900.0), (1, 50.0), (-1, 250.0)] if quick else [(k_, sb) for k_ in range(6) for sb in (900.0, 50.0)]))
+    for k in range(3 if quick else 12):
+        tasks.append(dict(kind="matpower", sid="mpc[generated k=%d: two loads and two shunts on one bus]" % k, case="generated",
+                          spec=pfdrv.network_spec(640 + k, "int", 1, k)))
     # fill in the idx of the altered device
     res = run_tasks("vh.checks.c13:task", tasks, nproc=NCPU, timeout=1500)
     traces = []
